@@ -28,3 +28,7 @@ CONTRACTS += [c for c in _c12x.CONTRACTS if c.id.startswith(("ab64_decode[", "b6
 LEMMAS = c20_libpass.LEMMAS
 MUTANTS = c20_libpass.MUTANTS
 BOUNDED = [Bounded("c20", "harness/c20.py", descr="cross verification passlib <-> libpass on grids", timeout=900)]
+
+from contracts import c01 as _c01sc  # noqa: E402
+
+CONTRACTS += [c for c in _c01sc.CONTRACTS if c.id.startswith("safe_crypt[")]  # undecodable bytes -> None -> the built-in implementation takes over
